@@ -41,6 +41,8 @@ type genType struct {
 	Tags      []string // field numbers the generated Unmarshal dispatches on (schema fields, oneof members, extensions)
 	MsgExts   []string // extension descriptors whose value Size() passes to csproto.Size (message-typed extensions)
 	HasUnmarshal bool
+	MapNum    map[string]string    // map fields: field number
+	SingNum   map[string][3]string // singular integer/bool/enum fields: wire kind, field number, "ptr" or "val"
 }
 
 // prepareGenerated builds the plug-in and genfm from repo and regenerates all families into
@@ -229,6 +231,37 @@ func scanGenTypes(files map[string][]byte) (string, []*genType, error) {
 				if mt, ok := f.Type.(*ast.MapType); ok {
 					if _, ok := mt.Value.(*ast.StarExpr); ok {
 						g.MapOfMsg[fn.Name] = true
+					}
+				}
+				if i := strings.Index(tag, "protobuf:\""); i >= 0 {
+					parts := strings.Split(tag[i+10:], ",")
+					if _, ok := f.Type.(*ast.MapType); ok && len(parts) >= 2 {
+						if g.MapNum == nil {
+							g.MapNum = map[string]string{}
+						}
+						g.MapNum[fn.Name] = parts[1]
+					}
+					if len(parts) >= 3 && (parts[2] == "opt" || parts[2] == "req") {
+						base, how := f.Type, "val"
+						if se, ok := f.Type.(*ast.StarExpr); ok {
+							base, how = se.X, "ptr"
+						}
+						scalar := false
+						switch bt := base.(type) {
+						case *ast.Ident:
+							scalar = bt.Name != "float32" && bt.Name != "float64" && structs[bt.Name] == nil
+						case *ast.SelectorExpr:
+							scalar = strings.Contains(tag, ",enum=")
+						}
+						switch parts[0] {
+						case "varint", "zigzag32", "zigzag64", "fixed32", "fixed64":
+							if scalar {
+								if g.SingNum == nil {
+									g.SingNum = map[string][3]string{}
+								}
+								g.SingNum[fn.Name] = [3]string{parts[0], parts[1], how}
+							}
+						}
 					}
 				}
 				if at, ok := f.Type.(*ast.ArrayType); ok {
@@ -751,6 +784,129 @@ func lemma_c06p_%[1]s_%[2]s(m *%[1]s, %[3]s) {
 }
 `, t.Name, f, params, small, lit(kb(2), esz), rn[1], esz)
 			fmt.Fprintf(&c, "\n//@ func lemma_c06p_%s_%s(m *%s, %s)\n//@   harness\n//@   inlines Unmarshal, DecodePackedBool, DecodePackedInt32, DecodePackedInt64, DecodePackedUint32, DecodePackedUint64, DecodePackedSint32, DecodePackedSint64, DecodePackedFixed32, DecodePackedFixed64, DecodePackedFloat32, DecodePackedFloat64\n//@   cuts\n//@   outer 1\n//@   bounded %d the input is exactly one packed run holding one element of repeated field %s\n", t.Name, f, t.Name, params, unmarshalFields, f)
+		}
+		// C06, further clauses decidable on literal inputs without the reference decoder
+		keyLit := func(numStr string, wt int) string {
+			var num uint64
+			fmt.Sscan(numStr, &num)
+			k := num<<3 | uint64(wt)
+			var parts []string
+			for k >= 0x80 {
+				parts = append(parts, fmt.Sprintf("0x%02x", byte(k)|0x80))
+				k >>= 7
+			}
+			parts = append(parts, fmt.Sprintf("0x%02x", byte(k)))
+			return strings.Join(parts, ", ")
+		}
+		kindWire := func(kind string) (int, int) {
+			switch kind {
+			case "fixed32":
+				return 5, 4
+			case "fixed64":
+				return 1, 8
+			}
+			return 0, 1
+		}
+		byteNames := func(prefix string, n int) []string {
+			var out []string
+			for i := 0; i < n; i++ {
+				out = append(out, fmt.Sprintf("%s%d", prefix, i))
+			}
+			return out
+		}
+		// (a) a repeated scalar split over two occurrences, one packed and one unpacked: both kept, in order
+		for _, f := range t.Fields {
+			rn, ok := t.RepNum[f]
+			if !ok {
+				continue
+			}
+			ewt, esz := kindWire(rn[0])
+			a, b := byteNames("a", esz), byteNames("b", esz)
+			params := strings.Join(append(append([]string{}, a...), b...), ", ") + " byte"
+			small := ""
+			if ewt == 0 {
+				small = "\tgocv_assume(a0 < 0x80 && b0 < 0x80) // one-byte varints\n"
+			}
+			fmt.Fprintf(&h, `
+func lemma_c06s_%[1]s_%[2]s(m *%[1]s, %[3]s) {
+	gocv_assume(m != nil)
+%[4]s	p := []byte{%[5]s, %[6]d, %[7]s, %[8]s, %[9]s} // a packed run of one element, then one unpacked element
+	_ = m.Unmarshal(p)
+	gocv_assert(len(m.%[2]s) == 2, "split-occurrences-concatenated")
+}
+`, t.Name, f, params, small, keyLit(rn[1], 2), esz, strings.Join(a, ", "), keyLit(rn[1], ewt), strings.Join(b, ", "))
+			fmt.Fprintf(&c, "\n//@ func lemma_c06s_%s_%s(m *%s, %s)\n//@   harness\n//@   inlines Unmarshal, DecodePackedBool, DecodePackedInt32, DecodePackedInt64, DecodePackedUint32, DecodePackedUint64, DecodePackedSint32, DecodePackedSint64, DecodePackedFixed32, DecodePackedFixed64, DecodePackedFloat32, DecodePackedFloat64\n//@   cuts\n//@   outer 2\n//@   bounded %d the input is exactly a packed run of one element followed by one unpacked element of repeated field %s\n", t.Name, f, t.Name, params, unmarshalFields, f)
+		}
+		// (b) a singular integer/bool/enum field occurring twice: the last occurrence wins, i.e. the
+		// result is the one of the input holding only the second occurrence
+		for _, f := range t.Fields {
+			sn, ok := t.SingNum[f]
+			if !ok {
+				continue
+			}
+			ewt, esz := kindWire(sn[0])
+			a, b := byteNames("a", esz), byteNames("b", esz)
+			params := strings.Join(append(append([]string{}, a...), b...), ", ") + " byte"
+			small := ""
+			if ewt == 0 {
+				small = "\tgocv_assume(a0 < 0x80 && b0 < 0x80) // one-byte varints\n"
+			}
+			cmp := fmt.Sprintf("m.%[1]s == m2.%[1]s", f)
+			if sn[2] == "ptr" {
+				cmp = fmt.Sprintf("m.%[1]s != nil && m2.%[1]s != nil && *m.%[1]s == *m2.%[1]s", f)
+			}
+			key := keyLit(sn[1], ewt)
+			fmt.Fprintf(&h, `
+func lemma_c06l_%[1]s_%[2]s(m *%[1]s, m2 *%[1]s, %[3]s) {
+	gocv_assume(m != nil && m2 != nil && m != m2)
+%[4]s	p := []byte{%[5]s, %[6]s, %[5]s, %[7]s} // the field twice
+	q := []byte{%[5]s, %[7]s} // its second occurrence alone
+	e1 := m.Unmarshal(p)
+	e2 := m2.Unmarshal(q)
+	gocv_assert((e1 == nil) == (e2 == nil), "duplicate-singular-accepted")
+	if e1 == nil && e2 == nil {
+		gocv_assert(%[8]s, "last-occurrence-wins")
+	}
+}
+`, t.Name, f, params, small, key, strings.Join(a, ", "), strings.Join(b, ", "), cmp)
+			fmt.Fprintf(&c, "\n//@ func lemma_c06l_%s_%s(m *%s, m2 *%s, %s)\n//@   harness\n//@   inlines Unmarshal\n//@   cuts\n//@   outer 2\n//@   bounded %d the input is exactly two occurrences of singular field %s (one-byte varints or any fixed-width values), compared with the input holding the second occurrence alone\n", t.Name, f, t.Name, t.Name, params, unmarshalFields, f)
+		}
+		// (c) the result does not depend on the destination's previous content: the empty input
+		// leaves every field at its zero value whatever the destination held
+		{
+			var as strings.Builder
+			for _, f := range t.Fields {
+				fmt.Fprintf(&as, "\tgocv_assert(m.%[1]s == %[2]s, \"destination-content-discarded-%[1]s\")\n", f, t.Zero[f])
+			}
+			if t.Unknown != "" {
+				fmt.Fprintf(&as, "\tgocv_assert(len(m.%[1]s) == 0, \"destination-content-discarded-%[1]s\")\n", t.Unknown)
+			}
+			fmt.Fprintf(&h, `
+func lemma_c06d_%[1]s(m *%[1]s) {
+	gocv_assume(m != nil)
+	p := []byte{}
+	_ = m.Unmarshal(p)
+%[2]s}
+`, t.Name, as.String())
+			fmt.Fprintf(&c, "\n//@ func lemma_c06d_%s(m *%s)\n//@   harness\n//@   inlines Unmarshal, csprotoCheckRequiredFields\n//@   cuts\n//@   outer 1\n//@   bounded %d the empty input into an arbitrary destination\n", t.Name, t.Name, unmarshalFields)
+		}
+		// (d) a map entry whose key and value are both omitted (a conforming writer may omit default values)
+		if len(t.Required) == 0 {
+			for _, f := range t.Maps {
+				num, ok := t.MapNum[f]
+				if !ok {
+					continue
+				}
+				fmt.Fprintf(&h, `
+func lemma_c06m_%[1]s_%[2]s(m *%[1]s) {
+	gocv_assume(m != nil)
+	p := []byte{%[3]s, 0x00} // one entry of map field %[2]s, declared length 0: key and value omitted
+	err := m.Unmarshal(p)
+	gocv_assert(err == nil, "map-entry-with-omitted-fields-accepted")
+}
+`, t.Name, f, keyLit(num, 2))
+				fmt.Fprintf(&c, "\n//@ func lemma_c06m_%s_%s(m *%s)\n//@   harness\n//@   inlines Unmarshal\n//@   cuts\n//@   outer 1\n//@   bounded %d the input is exactly one empty entry of map field %s\n", t.Name, f, t.Name, unmarshalFields, f)
+			}
 		}
 		// C17, decode direction
 		if len(t.Required) > 0 {
